@@ -632,7 +632,7 @@ func main() {
 			}
 			replayLimit := 2 * time.Minute
 			if r.exit == 3 {
-				replayLimit = 40 * time.Second // a hang: the replay, alone in its process, must exceed this (twice)
+				replayLimit = 60 * time.Second // a hang: the replay, alone in its process, must exceed this (twice)
 				attempts = 2
 				if r.check.Race || r.check.Flaky {
 					attempts = 4 // a schedule-dependent deadlock need not form on every run
